@@ -126,6 +126,8 @@ where
                     if !market.open {
                         break;
                     }
+                    // Do not hold the market while sleeping: every worker would stall behind it.
+                    drop(market);
                     sleep(Duration::from_secs(1));
                 })
                 .unwrap();
